@@ -155,6 +155,15 @@ fn random_content(rng: &mut Rng, tier: Tier) -> String {
     s
 }
 
+/// "first\n" + one line of `len` characters + "\n" + two short lines, appended in a handful of chunks that also split the long line
+fn long_case(len: usize, variant: usize) -> J {
+    let prefix = "first line\n";
+    let suffix = "\nafter the long one\nlast\u{e9}\n";
+    let p = prefix.len();
+    let cuts = match variant % 3 { 0 => vec![p + len / 3, p + len - 1, p + len + 1], 1 => vec![5, p, p + 1, p + len / 2, p + len], _ => vec![p + len + 3] };
+    json!({"kind": "schedule", "long": {"prefix": prefix, "len": len, "suffix": suffix}, "cuts": cuts, "idles": [0, 1, 0, 0, 2, 0, 0], "cap": if variant % 2 == 0 { 8192 } else { 64 }, "pre": ""})
+}
+
 impl Monitor for C10 {
     fn id(&self) -> &'static str { "C10" }
     fn rule(&self) -> &'static str {
@@ -174,10 +183,14 @@ impl Monitor for C10 {
             frontier = next;
         }
         for c in contents { for cap in [1usize, 2, 4, 8192] { emit(json!({"kind": "small", "content": c, "cap": cap})); } }
+        // one line of each size class (a pending line longer than any buffer an implementation may have chosen)
+        let lens: &[usize] = if _tier == Tier::Thorough { &[8191, 8192, 8193, 65_539, (1 << 20) - 1, (1 << 20) + 5, (1 << 21) + 1, (1 << 22) + 3, (1 << 24) + 7] } else { &[8192, 65_539, (1 << 20) + 5, (1 << 21) + 1] };
+        for (i, len) in lens.iter().enumerate() { emit(long_case(*len, i)); }
     }
 
     fn generate(&self, rng: &mut Rng, tier: Tier) -> J {
         let kind = if tier == Tier::Thorough { match rng.below(40) { 0 => "threads", 1 if eng::cli_path().is_some() => "cli", 2 => "from-end", _ => "schedule" } } else { match rng.below(12) { 0 => "from-end", _ => "schedule" } };
+        if kind == "schedule" && rng.chance(1, if tier == Tier::Thorough { 300 } else { 3000 }) { let len = *rng.pick(&[8192usize, 65_536, 1 << 20, 1 << 21]) + rng.below(9); return long_case(len, rng.below(3)); }
         let content = random_content(rng, tier);
         let n = content.len();
         let ncuts = match rng.below(5) { 0 => 0, 1 => n, _ => rng.below(12) };
@@ -197,7 +210,10 @@ impl Monitor for C10 {
 
     fn check(&self, case: &J, obs: &mut Obs) -> Verdict {
         let kind = case["kind"].as_str().unwrap_or("");
-        let content = case["content"].as_str().unwrap_or("");
+        // a very long line is stored as its length only
+        let long_content = case.get("long").filter(|l| l.is_object()).map(|l| format!("{}{}{}", l["prefix"].as_str().unwrap_or(""), "x".repeat(l["len"].as_u64().unwrap_or(0) as usize), l["suffix"].as_str().unwrap_or("")));
+        if let Some(l) = case.get("long").filter(|l| l.is_object()) { obs.hit(&format!("long-line:2^{}", (l["len"].as_u64().unwrap_or(1) as f64).log2().floor() as u32)); }
+        let content = long_content.as_deref().unwrap_or_else(|| case["content"].as_str().unwrap_or(""));
         let cap = case["cap"].as_u64().unwrap_or(8192) as usize;
         if kind == "small" { return self.check_small(content, cap, obs); }
         let cuts: Vec<usize> = case["cuts"].as_array().map(|a| a.iter().filter_map(|x| x.as_u64().map(|v| v as usize)).collect()).unwrap_or_default();
